@@ -1,4 +1,6 @@
 pub mod from_proto;
 pub mod server;
 pub mod to_proto;
+#[cfg(tablegen_lsp_verif)]
+pub mod verif;
 pub mod vfs;
